@@ -113,7 +113,7 @@ def scenario(spec, recorder):
         ph.run_mesh(spec["mesh"], with_eigenvectors=True, with_group_velocities=True, is_mesh_symmetry=False)
         if float(np.ptp(ph.mesh.frequencies)) < 1e-3:
             return None  # flat (all-zero) spectrum: a lone atom whose only neighbours are its own images
-        ph.run_thermal_properties(t_min=0, t_max=600, t_step=150)
+        ph.run_thermal_properties(temperatures=[0, 0.3, 150, 600])  # 0.3 K: h nu / kT beyond 709 for ordinary optical modes
         ph.run_projected_dos(use_tetrahedron_method=True)
         ph.run_mesh(spec["mesh"], is_mesh_symmetry=spec["ms"])
         ph.run_total_dos(use_tetrahedron_method=True)
